@@ -186,7 +186,7 @@ LinOu(p, r) ==
   IF s = NoA THEN /\ FreeOnly(p, r.F, rd) /\ UNCHANGED <<rd, upd, dead, sup, hold, cov, exc, ban>>
   ELSE /\ s \in Anchor /\ f \in Anchor /\ s # f
        /\ Readable(s, k, p) /\ upd[s] = NoProc                                                  \* G1, G4, one updater
-       /\ Unheld(f, rd) /\ MayFree(r.F, p, rd)                                                 \* G3, G2
+       /\ Unheld(f, rd) /\ MayFree(r.F, p, [rd EXCEPT ![s] = @ \cup {p}])                     \* G3, G2
        /\ rd' = [rd EXCEPT ![s] = @ \cup {p}] /\ upd' = [upd EXCEPT ![s] = p]
        /\ ed' = [EdAfterFree(r.F) EXCEPT ![f] = [key |-> k, st |-> "writing", w |-> p]]
        /\ chain' = [ChainAfterFree(r.F) EXCEPT ![f] = <<>>]
